@@ -443,6 +443,14 @@ func (g *FuncGen) havocLocation(env *Env, e Expr) {
 				c.assert(fmt.Sprintf("(forall ((i %s)) (=> (not %s) (= (select %s i) (select %s i))))", c.intSort(64),
 					and(g.le64(lo, "i"), g.lt64("i", hi)), fresh, old))
 				g.heapStore(cl, fmt.Sprintf("(s_arr %s)", base.T), fresh)
+			} else if rg, ok := x.I.(*ERange); ok {
+				// constant index range: havoc exactly those elements (quantifier-free)
+				lo, hi := g.constInt(env, rg.Lo), g.constInt(env, rg.Hi)
+				arr := fmt.Sprintf("(select %s (s_arr %s))", g.heapOf(g.cur, cl), base.T)
+				for k := lo; k < hi; k++ {
+					arr = fmt.Sprintf("(store %s %s %s)", arr, g.add64(fmt.Sprintf("(s_off %s)", base.T), c.intLit64(k, 64)), c.fresh("havoc_elem", c.sortOf(t.Elem())))
+				}
+				g.heapStore(cl, fmt.Sprintf("(s_arr %s)", base.T), arr)
 			} else {
 				g.unsup("assigns %s", e)
 			}
@@ -607,6 +615,11 @@ func (g *FuncGen) frameLocs() map[string][]frameLoc {
 					cl := c.elemClass(t.Elem())
 					lo := fmt.Sprintf("(s_off %s)", base.T)
 					hi := g.add64(lo, fmt.Sprintf("(s_cap %s)", base.T))
+					if rg, ok := e.I.(*ERange); ok {
+						off := lo
+						lo = g.add64(off, c.intLit64(g.constInt(env, rg.Lo), 64))
+						hi = g.add64(off, c.intLit64(g.constInt(env, rg.Hi), 64))
+					}
 					allowed[cl] = append(allowed[cl], loc{ref: fmt.Sprintf("(s_arr %s)", base.T), elem: and(g.le64(lo, "fi!"), g.lt64("fi!", hi))})
 				case *types.Map:
 					allowed[c.mapDomClass(t)] = append(allowed[c.mapDomClass(t)], loc{ref: base.T})
